@@ -63,7 +63,11 @@ def from_json(j):
     # stock kinds: same construction as ser.from_json, but recursing through
     # this function so that user nodes may sit anywhere
     if t in ("Var", "Const", "None", "FunctionSymbol", "Wild"):
-        return ser.from_json(j)
+        v = ser.from_json(j)
+        if _NP and type(v) is float:
+            import numpy
+            v = numpy.float64(v)      # catalogue entries marked np: numpy scalars as constants
+        return v
     if t in ser._NARY:
         return getattr(p, ser._NARY[t])(tuple(from_json(c) for c in j["c"]))
     if t == "Tup":
@@ -95,8 +99,16 @@ def from_json(j):
     raise ValueError(f"unknown node kind {t!r}")
 
 
+_NP = False
+
+
 def build(entry):
-    e = from_json(entry["e"])
+    global _NP
+    _NP = bool(entry.get("np"))
+    try:
+        e = from_json(entry["e"])
+    finally:
+        _NP = False
     if entry["kind"] == "compiled":
         return CompiledExpression(e, list(entry["vars"]))
     return e
